@@ -43,4 +43,5 @@ def run(ctx, rep):
     rep.run(RF.rule_no_shared_state, ctx, rep, "P4", packages=("gtwrap/interface_parser", "gtwrap/template_instantiator"))
     rep.run(RG.rule_word_boundary, ctx, rep, "P5")
     rep.run(RX.rule_counter_key_identity, ctx, rep, "P6")
+    rep.run(RI.rule_positions_of_the_list_itself, ctx, rep, "P7")
     rep.run(RF.rule_locals_defined, ctx, rep, "U1", packages=("gtwrap/template_instantiator",), min_functions=3)
